@@ -5,7 +5,7 @@
    keywords of the construct kind).  Per report the harness gets back
      [ property holds for the report ; model ideal satisfies the property on the matching constructs ;
        impl position = model position under q, for q = claimed vector, claimed vector with flag i
-       off (i = 0..3), ideal ]. *)
+       off (i = 0..4), ideal ]. *)
 From TL Require Import Lib.Base Lib.GenTypes Model.LocTypes Gen.LocGen Model.Loc.
 
 Record report := {
@@ -39,9 +39,9 @@ Definition ideal_ok (f : lfile) (cs : list construct) (r : report) : bool :=
 
 Definition with_flag (i : nat) (q : lquirks) : lquirks :=
   let off (j : nat) (b : bool) := if i =? j then false else b in
-  Build_lquirks (off 0 (q_rs_chain_start q)) (off 1 (q_ts_console_chain_start q))
-                (off 2 (q_fh_header_relative q)) (off 3 (q_col_const_unclamped q)).
-Definition flag_ids : list nat := [0; 1; 2; 3].
+  Build_lquirks (off 0 (q_rs_chain_start q)) (off 1 (q_ts_arrow_node_start q)) (off 2 (q_ts_console_chain_start q))
+                (off 3 (q_fh_header_relative q)) (off 4 (q_col_const_unclamped q)).
+Definition flag_ids : list nat := [0; 1; 2; 3; 4].
 Definition candidates (q : lquirks) : list lquirks := q :: map (fun i => with_flag i q) flag_ids ++ [loc_ideal].
 
 Definition judge (q : lquirks) (f : lfile) (cs : list construct) (rs : list report) : list (list bool) :=
